@@ -40,6 +40,10 @@ CLAIMED = {
          "≈690k complete encode+finalize runs; every finished image is validated independently (counts, extrema, MD5, every seek point names a real frame, ordering) and the device log proves the audio region is append-only and the header rewrite stays inside [start, first frame).",
          "PCM from 3 fixed signals; >932067-frame streams only in the thorough tier.",
          "§4 C09"),
+ "C10": ("explicit-state BFS over metadata edit histories applied through the real update_file on in-memory devices, state = file bytes (content de-duplicated), edits parameterised by the current padding so size deltas sweep −8..+8 around an exact fit",
+         "From 48 initial files every edit sequence to depth 2 (thorough 3) over a 41-edit alphabet is executed; per transition the audio region, PCM (independent decoder), in-place/rebuilt contracts and failure atomicity are checked.",
+         "Edited lists are installed wholesale inside the callback; write_blocks/BlockList::read themselves are judged by C11.",
+         "§4 C10"),
  "C13": ("fault enumeration with deviation bound 1 (every call index × 4 fault kinds) and 2 (pairs) over an in-memory fault device, executed on the real encode/finalize/write_blocks/update_file/decode paths",
          "For each scenario the fault-free run fixes N targeted calls; every n<N × {permanent, once, Interrupted, short} is executed (pairs in thorough / on update_file in quick). Oracle: no panic and API Ok ⇒ device contents and results byte-identical to the fault-free run.",
          "At most 2 faults per run. File-backed wrappers are represented by BufWriter<device> passed by value.",
@@ -56,6 +60,14 @@ CLAIMED = {
          "≈1.3M frames in the quick tier: accept/reject agreement, exact expansion length, sample agreement after inverse decorrelation, byte-identical re-serialisation when the independent decoder reports minimal coded number and zero padding.",
          "Frames judged under the original STREAMINFO with total/MD5 cleared.",
          "§4 C17"),
+ "C16": ("exhaustive enumeration of frame sequences × garbage placements × source segmentations on the real FlacStreamWriter/FlacStreamReader; oracle: independent subset decode per frame, subsequence/no-loss rules",
+         "All 1..3-frame sequences over a 12-entry parameter menu (parameters change between frames), all placements of ≤2 (thorough ≤3) garbage strings from a 9-string alphabet in the 4 gaps, every single cut point of the buffered source (pairs in thorough) and 1-byte buffers, incl. cuts inside the 2-byte sync code.",
+         "Garbage and frame parameters come from fixed menus.",
+         "§4 C16"),
+ "C18": ("schedule exploration: the real encoder built with the rayon feature against a model of rayon on the shuttle runtime; custom deviation-bounded depth-first scheduler enumerating every task schedule with ≤ b deviations, b raised until nothing is pruned (= all schedules) or the budget is hit; oracle: bytes identical to the feature-less build",
+         "84 configurations (file writer and stream writer × 1/2/3/8 channels × correlation modes × LPC none/2 × 2 signals × 1 or 3 frames); for the smaller ones ALL schedules are covered, for the larger ones every schedule within the reported deviation bound; every execution runs the real crate code.",
+         "The model implements rayon's contract (each closure once, any time between call and return, indexed collect order), not its implementation; tasks are coroutines on one OS thread (no memory-model effects; crate has no unsafe/atomics); code between scheduling points (task start, yield, join, exit) is atomic.",
+         "§4 C18"),
  "C19": ("bounded-exhaustive enumeration of the C01 space plus adversarial signals × the option lattice through the real encoder; per-frame arithmetic bound evaluated on sizes measured by the independent decoder",
          "≈1.9M encodes, every frame measured; bound = verbatim bits (+1 bit/sample for one channel under stereo decorrelation) + 32 + 6·channels bytes; constant blocks ≤ 32 + 12·channels bytes.",
          "Same input bounds as C01; the allowance constants are derived from the format's maximum header/footer sizes.",
